@@ -650,7 +650,9 @@ impl KalmanFilter {
                 target - self.running_filter.freq_offset() * 1e6,
                 self.config.max_freq_offset,
             );
-            let new_frequency = cur_frequency + error_ppm;
+            // `cur + (bound - cur)` can exceed `bound` by one ulp, so bound the sum itself as well
+            let new_frequency = (cur_frequency + error_ppm)
+                .clamp(-self.config.max_freq_offset, self.config.max_freq_offset);
             if !new_frequency.is_finite() {
                 log::error!("Refusing to set non-finite clock frequency");
                 return;
